@@ -6,15 +6,23 @@ package dsmr
 // chunk certificates are immutable records once parsed / built
 //@ type ChunkCertificate valuelike
 //@ type emapChunkCertificate valuelike
-//@ type validityWindowBlock opaque
 //@ type github.com/ava-labs/avalanchego/utils/set.Bits opaque
 //@ type github.com/ava-labs/avalanchego/vms/platformvm/warp.BitSetSignature valuelike
 
 //@ func Block.GetID
 //@   pure
-// the replay-protection view of a block is a function of the block
-//@ func NewValidityWindowBlock
+// the replay-protection view of a block is a function of the block: it presents exactly the block's
+// certificates, one container per certificate, in order (so that an in-block repeat is visible)
+//@ func NewValidityWindowBlock props C37
 //@   pure
+//@   requires forall j int :: 0 <= j && j < len(innerBlock.ChunkCerts) ==> !isnil(innerBlock.ChunkCerts[j])
+//@   loop 1 invariant 0 <= idx1 && idx1 <= len(innerBlock.ChunkCerts) && len(chunkCerts) == len(innerBlock.ChunkCerts)
+//@   loop 1 invariant forall j int :: 0 <= j && j < idx1 ==> !isnil(chunkCerts[j]) && chunkCerts[j].ChunkCertificate == *innerBlock.ChunkCerts[j]
+//@   ensures len(result.chunkCerts) == len(innerBlock.ChunkCerts)
+//@   ensures forall j int :: 0 <= j && j < len(innerBlock.ChunkCerts) ==> !isnil(result.chunkCerts[j]) && result.chunkCerts[j].ChunkCertificate == *innerBlock.ChunkCerts[j]
+//@   ensures result.Block.ParentID == innerBlock.ParentID && result.Block.Height == innerBlock.Height && result.Block.Timestamp == innerBlock.Timestamp
+//@ func validityWindowBlock.GetContainers props C37
+//@   ensures len(result) == len(e.chunkCerts) && (forall j int :: 0 <= j && j < len(result) ==> result[j] == e.chunkCerts[j])
 // replay protection of the validity window (internal/validitywindow, C09): a deterministic verdict
 // for a given window state and block view
 //@ func TimeValidityWindow.VerifyExpiryReplayProtection
